@@ -14,7 +14,7 @@ from qce_circuit.structure.registry_duration import FixedDurationStrategy
 from qce_circuit.structure.circuit_operations import DispersiveMeasure, Wait, Rx180, CPhase, Barrier
 from qce_circuit.addon_stim import to_stim
 
-TAGS = ['', 'a', 'b', 'heralded', 'final']
+TAGS = ['', 'a', 'b', 'heralded', 'final', 'parity']      # 'parity' is used by the repetition-code library only
 RT = {'F': RelationType.FOLLOWED_BY, 'S': RelationType.JOINED_START, 'E': RelationType.JOINED_END}
 
 
@@ -170,8 +170,24 @@ def build(spec, top, unrelated):
     return circuit
 
 
+def build_library(case):
+    from qce_circuit.library.repetition_code.circuit_components import RepetitionCodeDescription
+    from qce_circuit.library.repetition_code.circuit_constructors import construct_repetition_code_circuit
+    from qce_circuit.language import InitialStateContainer, InitialStateEnum
+    init = InitialStateContainer.from_ordered_list([InitialStateEnum.ONE if b else InitialStateEnum.ZERO for b in case['init']])
+    return construct_repetition_code_circuit(description=RepetitionCodeDescription.from_initial_state(init), initial_state=init,
+                                             qec_cycles=case['cycles'])
+
+
 def handle(case):
     clear_caches()
+    if case.get('k') == 'lib':
+        circuit = build_library(case)
+        out = {}
+        if case.get('observe_before'):
+            out['before'] = observe(circuit, with_stim=False)
+        out['after'] = observe(circuit.apply_modifiers(), with_stim=True)
+        return out
     unrelated = DeclarativeCircuit()
     unrelated.add(Rx180(qubit_index=0))
     circuit = build(case['circ'], None, unrelated)
